@@ -77,7 +77,7 @@ BetweenMinMax ==
         IN R.out = "ok" =>
             /\ \A k \in Nucs : Between(R.dens[k], {BlockDens(cs[i], k) : i \in Idx(cs)})
             /\ \A k \in Nucs : Between(R.ntemp[k], IF o.rep = "Median" THEN TempSources(<<members[R.src]>>, k) ELSE TempSources(cs, k))
-            /\ R.cdens # <<>> => \A c \in Comps : \A k \in Nucs : Between(R.cdens[c][k], {RInt(cs[i].n[c][k]) : i \in Idx(cs)})
+            /\ R.mode # "block" => \A c \in Comps : \A k \in Nucs : Between(R.cdens[c][k], {RInt(cs[i].n[c][k]) : i \in Idx(cs)})
             /\ R.ctemp # <<>> => \A c \in Comps : Between(R.ctemp[c], {RInt(cs[i].t[c]) : i \in Idx(cs)})
             /\ Between(R.bu, IF o.rep = "Median" THEN {RInt(cs[i].bu) : i \in Idx(cs)} ELSE BurnSources(cs, o.rep))
 \* "equal to the common value when members agree"
@@ -86,7 +86,7 @@ CommonValue ==
         LET R == RepOf(members, o)  cs == CandOf(o)
         IN R.out = "ok" =>
             /\ \A k \in Nucs : (\A i \in Idx(cs) : BlockDens(cs[i], k) = BlockDens(cs[1], k)) => R.dens[k] = BlockDens(cs[1], k)
-            /\ R.cdens # <<>> => \A c \in Comps : \A k \in Nucs :
+            /\ R.mode # "block" => \A c \in Comps : \A k \in Nucs :
                    (\A i \in Idx(cs) : cs[i].n[c][k] = cs[1].n[c][k]) => R.cdens[c][k] = RInt(cs[1].n[c][k])
             /\ R.ctemp # <<>> => \A c \in Comps : (\A i \in Idx(cs) : cs[i].t[c] = cs[1].t[c]) => R.ctemp[c] = RInt(cs[1].t[c])
             /\ \A k \in Nucs : (\A i \in Idx(cs) : \A c \in HoldersOf(k) : cs[i].t[c] = cs[1].t[CHOOSE d \in HoldersOf(k) : TRUE])
@@ -113,11 +113,12 @@ WeightIsFluxTimesVolume ==
         IN (o.rep = "FluxWeightedAverage" /\ Len(cs) > 0 /\ \A i \in Idx(cs) : cs[i].w > 0) =>
             \A i \in Idx(cs) : \A k \in Nucs :
                 AvgDens([cs EXCEPT ![i].w = @ * 2], o.rep, k) = AvgDens([cs EXCEPT ![i].h = @ * 2], o.rep, k)
-\* by-component and block-level averaging agree on the homogenised densities
+\* by-component and block-level averaging agree on the homogenised densities: in every mode the component densities of
+\* the new block homogenise to the weight-normalised mean of the members' homogenised densities
 ByComponentAgreesWithBlockLevel ==
     \A o \in Opts :
         LET R == RepOf(members, o)
-        IN (R.out = "ok" /\ R.cdens # <<>>) =>
+        IN R.out = "ok" =>
             \A k \in Nucs : R.dens[k] = RSumSeq([c \in Comps |-> RMul(RFrac(CompArea[c], Area), R.cdens[c][k])])
 \* "the averaged burnup is the heavy-metal-weighted mean": it does not see volumes
 BurnupIgnoresVolume ==
